@@ -179,3 +179,102 @@ example : (execute 1 1 [.raises, .ok 7]).1 = .falseRet := by decide
 example : (execute 1 4 [.raises, .empty, .skipped]).1 = .error := by decide
 
 end Btc.C20
+
+namespace Btc.C20
+open Btc
+
+/-- `(k, v)` was answered by some provider in one of the queries -/
+def Answered (qs : List Query) (k v : Nat) : Prop :=
+  ∃ q ∈ qs, q.key = k ∧ ∃ p : Nat, q.outcomes[p]? = some (Outcome.ok v)
+
+theorem cacheGet_mem {c : Cache} {k v : Nat} (h : cacheGet c k = some v) : (k, v) ∈ c := by
+  unfold cacheGet at h
+  cases hf : c.find? (fun p => p.1 == k) with
+  | none => simp [hf] at h
+  | some p =>
+    simp only [hf, Option.map_some, Option.some.injEq] at h
+    have hm := List.mem_of_find?_eq_some hf
+    have hp := List.find?_some hf
+    simp only [beq_iff_eq] at hp
+    have : p = (k, v) := by cases p; simp_all
+    exact this ▸ hm
+
+/-- T4 (cache): a value read from the cache is the value that was stored for that key; storing for
+another key does not change it. -/
+theorem cache_get_put (c : Cache) (k v : Nat) (h : cacheGet c k = none) : cacheGet (cachePut c k v) k = some v := by
+  unfold cachePut
+  simp only [h, Option.isSome_none, Bool.false_eq_true, if_false]
+  unfold cacheGet at h ⊢
+  rw [List.find?_append]
+  cases hf : c.find? (fun p => p.1 == k) with
+  | none => simp
+  | some p => simp [hf] at h
+
+theorem cache_get_put_other (c : Cache) (k k' v : Nat) (hk : k' ≠ k) : cacheGet (cachePut c k v) k' = cacheGet c k' := by
+  unfold cachePut
+  split
+  · rfl
+  · unfold cacheGet
+    rw [List.find?_append]
+    cases hf : c.find? (fun p => p.1 == k') with
+    | some p => simp
+    | none =>
+      have : ((k, v).1 == k') = false := by simp; exact fun e => hk e.symm
+      simp [List.find?_cons, this]
+
+theorem queryStep_sound (c : Cache) (q : Query) (past : List Query)
+    (hc : ∀ k v, (k, v) ∈ c → Answered past k v) :
+    (∀ k v, (k, v) ∈ (queryStep c q).1 → Answered (past ++ [q]) k v) ∧
+    (∀ v, (queryStep c q).2 = .value v → Answered (past ++ [q]) q.key v) := by
+  have lift : ∀ k v, Answered past k v → Answered (past ++ [q]) k v := by
+    rintro k v ⟨q0, hq0, hk, hp⟩
+    exact ⟨q0, List.mem_append_left _ hq0, hk, hp⟩
+  unfold queryStep
+  cases hg : cacheGet c q.key with
+  | some v0 =>
+    simp only
+    refine ⟨fun k v hm => lift k v (hc k v hm), ?_⟩
+    intro v hv
+    cases hv
+    exact lift _ _ (hc _ _ (cacheGet_mem hg))
+  | none =>
+    simp only
+    cases hr : (execute q.maxProviders q.maxErrors q.outcomes).1 with
+    | value v0 =>
+      simp only
+      obtain ⟨p, hp⟩ := execute_value_from_provider _ _ _ _ hr
+      have hnew : Answered (past ++ [q]) q.key v0 := ⟨q, by simp, rfl, p, hp⟩
+      refine ⟨?_, fun v hv => by cases hv; exact hnew⟩
+      intro k v hm
+      unfold cachePut at hm
+      simp only [hg, Option.isSome_none, Bool.false_eq_true, if_false] at hm
+      rcases List.mem_append.mp hm with hm | hm
+      · exact lift k v (hc k v hm)
+      · simp at hm; obtain ⟨rfl, rfl⟩ := hm; exact hnew
+    | falseRet => exact ⟨fun k v hm => lift k v (hc k v hm), fun v hv => by cases hv⟩
+    | error => exact ⟨fun k v hm => lift k v (hc k v hm), fun v hv => by cases hv⟩
+
+/-- T5 (never fabricated, over histories): along any sequence of queries — cold, warm or
+partially filled cache, any provider failures — every value returned for a key is a value some
+provider answered for that key in this or an earlier query. -/
+theorem answers_from_providers : ∀ (qs past : List Query) (c : Cache),
+    (∀ k v, (k, v) ∈ c → Answered past k v) →
+    ∀ (i : Nat) (v : Nat), (runQueries c qs).2[i]? = some (ExecResult.value v) →
+      ∃ q, qs[i]? = some q ∧ Answered (past ++ qs) q.key v
+  | [], _, _, _, i, v, h => by simp [runQueries] at h
+  | q :: qs, past, c, hc, i, v, h => by
+    obtain ⟨h1, h2⟩ := queryStep_sound c q past hc
+    simp only [runQueries] at h
+    cases i with
+    | zero =>
+      simp only [List.getElem?_cons_zero, Option.some.injEq] at h
+      refine ⟨q, rfl, ?_⟩
+      obtain ⟨q0, hq0, hk, hp⟩ := h2 v h
+      exact ⟨q0, by rw [List.append_cons]; exact List.mem_append_left _ hq0, hk, hp⟩
+    | succ i =>
+      simp only [List.getElem?_cons_succ] at h
+      obtain ⟨q', hq', ha⟩ := answers_from_providers qs (past ++ [q]) (queryStep c q).1 h1 i v h
+      refine ⟨q', by simpa using hq', ?_⟩
+      rw [List.append_cons]; exact ha
+
+end Btc.C20
